@@ -207,7 +207,10 @@ impl Db {
 
             #[cfg(feature = "verif")]
             crate::verif::point("rebuild.start", "", 0, 0)?;
-            let mut writer = db.index.writer(50_000_000)?;
+            // Use a single indexing thread: with several threads the order of documents
+            // inside the index depends on thread scheduling, and so does the winner
+            // among constants that match a query equally well.
+            let mut writer = db.index.writer_with_num_threads(1, 50_000_000)?;
             #[cfg(feature = "verif")]
             crate::verif::point("rebuild.writer_created", "", 0, 0)?;
             writer.delete_all_documents()?;
